@@ -582,7 +582,7 @@ def check_unit(unit, rlimit=None, seed=None, with_canary=True):
         json.dump({"functions": asm.functions, "structs": asm.structs, "tags": {str(k): v for k, v in asm.tags.items()}, "origin": asm.origin}, f)
     extra = []
     if seed is not None:
-        extra += ["-V", "smt-option=random_seed=%d" % (int(seed) % 1000000)]
+        extra += ["--smt-option", "smt.random_seed=%d" % (int(seed) % 1000000)]
     # the unit must still contain every function and labelled obligation it was frozen with
     # (bin/freeze writes units/<unit>/expected.json); a silently lost contract is "undecided", not green
     exp_path = os.path.join(VERIF, "units", unit, "expected.json")
